@@ -37,12 +37,19 @@ diff = sh(["git", "-C", str(wt), "diff", "--", "odc"]).stdout
 if not diff.strip():
     print("no change applied in", wt); sys.exit(2)
 rc_with, tail_with = demo()
-sh(["git", "-C", str(wt), "stash", "push", "--", "odc"])
+# not `git stash`: refs/stash is shared by all worktrees of /repo, concurrent sub-agents would swap patches
+pf = Path(tempfile.mkdtemp(prefix="vf-seedpatch-")) / "change.diff"
+pf.write_text(diff)
+r = sh(["git", "-C", str(wt), "apply", "-R", str(pf)])
+assert r.returncode == 0, r.stderr
 try:
+    assert not sh(["git", "-C", str(wt), "diff", "--", "odc"]).stdout.strip()
     rc_without, tail_without = demo()
 finally:
-    sh(["git", "-C", str(wt), "stash", "pop"])
-assert sh(["git", "-C", str(wt), "diff", "--", "odc"]).stdout == diff, "stash pop did not restore the change"
+    r = sh(["git", "-C", str(wt), "apply", str(pf)])
+    assert r.returncode == 0, r.stderr
+    shutil.rmtree(pf.parent, ignore_errors=True)
+assert sh(["git", "-C", str(wt), "diff", "--", "odc"]).stdout == diff, "re-applying the change did not restore it"
 print(f"[{sid}] demo with change exit={rc_with}; without change exit={rc_without}")
 b = sh([sys.executable, str(ROOT / "tools" / "baseline_check.py"), str(wt)])
 suite_ok = b.returncode == 0
@@ -69,7 +76,7 @@ if confirmed or a.keep_anyway:
     (out / "patch.diff").write_text(diff)
     shutil.copy(wt / "demo.py", out / "demo.py")
     meta.update({"id": sid, "property": pid, "confirmed": {"demo_with_change_exit": rc_with, "demo_without_change_exit": rc_without, "baseline_stable_pass_still_passing": suite_ok,
-                 "how": "scratch git worktree of /repo HEAD under /tmp; demo run with and without the change (git stash); tools/baseline_check.py against the worktree"},
+                 "how": "scratch git worktree of /repo HEAD under /tmp; demo run with and without the change (git apply -R / git apply of the recorded diff); tools/baseline_check.py against the worktree"},
                  "checks_run": {k: v for k, v in results.items()}, "checks_how": "./check <id> --tier <tier> with VERIF_REPO=<scratch worktree with the change applied>; evidence redirected to a scratch directory"})
     (out / "meta.json").write_text(json.dumps(meta, indent=1))
     print(f"[{sid}] kept under {out}")
